@@ -437,3 +437,23 @@ Definition drop_ct_m (m : matcher) (ver : N) (cf : fwconf) (cs : conns) (incomin
 Definition table_matcher (fw : firewall) : matcher := fun inc => table_match (fw_table fw inc) inc.
 Definition rules_matcher (cf : fwconf) (inr outr : list rule) : matcher :=
   fun inc pkt pr pl => existsb (rule_matches cf inc pkt pr pl) (if inc then inr else outr).
+
+(* ---------------------------------------------------------------------------------------------- *)
+(* Part 5: Interface.reloadFirewall. The node's certificate was re-issued with unsafe networks [unsafe'] (its overlay
+   networks cannot change on reload, C42); [changed] = config.HasChanged("firewall"). The firewall is rebuilt when the
+   config changed or the certified unsafe networks differ (slices.Equal: same prefixes in the same order) from the
+   ones the firewall was built with; a rebuild that fails keeps the old firewall. rulesVersion is a uint16; conntrack is
+   carried over unless the version wraps to 0. *)
+Definition reload_triggered (fw : firewall) (unsafe' : list prefix) (changed : bool) : bool :=
+  changed || negb (list_eqb pfx_eqb unsafe' (my_unsafe (fw_conf fw))).
+
+Definition reload_firewall (fw : firewall) (cs : conns) (unsafe' : list prefix) (changed : bool) (dlca' : bool)
+           (inr outr : list rule) : firewall * conns :=
+  if reload_triggered fw unsafe' changed then
+    match new_firewall (mkConf (my_nets (fw_conf fw)) unsafe' dlca') inr outr with
+    | None => (fw, cs)
+    | Some fw' =>
+        let v := (fw_version fw + 1) mod 65536 in
+        (mkFw (fw_conf fw') (fw_in fw') (fw_out fw') v, if v =? 0 then [] else cs)
+    end
+  else (fw, cs).
